@@ -935,6 +935,11 @@ def string_into_bytes(I, args, callee):
 
 def utf8_validate(I, items):
     """-> True/False (forks); follows core::str::from_utf8 acceptance exactly for the encodable cases"""
+    return utf8_valid_prefix(I, items)[0]
+
+
+def utf8_valid_prefix(I, items):
+    """-> (valid, number of bytes of the longest valid prefix) - the valid_up_to() of core::str::Utf8Error"""
     i = 0
     n = len(items)
     while i < n:
@@ -944,12 +949,12 @@ def utf8_validate(I, items):
             continue
         if I.decide(in_range(I, b, 0xC2, 0xDF)):
             if i + 1 >= n or not I.decide(in_range(I, items[i + 1], 0x80, 0xBF)):
-                return False
+                return False, i
             i += 2
             continue
         if I.decide(in_range(I, b, 0xE0, 0xEF)):
             if i + 2 >= n:
-                return False
+                return False, i
             b1 = items[i + 1]
             if I.decide(sym_eq(I, b, 0xE0, 8)):
                 okk = in_range(I, b1, 0xA0, 0xBF)
@@ -958,12 +963,12 @@ def utf8_validate(I, items):
             else:
                 okk = in_range(I, b1, 0x80, 0xBF)
             if not I.decide(okk) or not I.decide(in_range(I, items[i + 2], 0x80, 0xBF)):
-                return False
+                return False, i
             i += 3
             continue
         if I.decide(in_range(I, b, 0xF0, 0xF4)):
             if i + 3 >= n:
-                return False
+                return False, i
             b1 = items[i + 1]
             if I.decide(sym_eq(I, b, 0xF0, 8)):
                 okk = in_range(I, b1, 0x90, 0xBF)
@@ -972,11 +977,11 @@ def utf8_validate(I, items):
             else:
                 okk = in_range(I, b1, 0x80, 0xBF)
             if not I.decide(okk) or not I.decide(in_range(I, items[i + 2], 0x80, 0xBF)) or not I.decide(in_range(I, items[i + 3], 0x80, 0xBF)):
-                return False
+                return False, i
             i += 4
             continue
-        return False
-    return True
+        return False, i
+    return True, n
 
 
 @model('String::from_utf8')
@@ -990,9 +995,26 @@ def string_from_utf8(I, args, callee):
 @model('from_utf8', 'str::from_utf8', 'converts::from_utf8')
 def str_from_utf8(I, args, callee):
     s = as_slice(args[0])
-    if utf8_validate(I, s.items()):
+    valid, upto = utf8_valid_prefix(I, s.items())
+    if valid:
         return ok(SliceRef(s.arr, s.start, s.length, True))
-    return err(Opaque('Utf8Error'))
+    return err(Adt('Utf8Error', None, [upto]))
+
+
+@model('Utf8Error::valid_up_to')
+def utf8error_valid_up_to(I, args, callee):
+    e = deref(args[0])
+    if type(e) is Adt and e.name == 'Utf8Error':
+        return e.fields[0]
+    if type(e) is Adt and e.name == 'FromUtf8Error':
+        return utf8_valid_prefix(I, items_of(e.fields[0]))[1]
+    raise Unmodelled('Utf8Error::valid_up_to on %r' % (e,))
+
+
+@model('FromUtf8Error::utf8_error')
+def fromutf8error_utf8_error(I, args, callee):
+    e = deref(args[0])
+    return Adt('Utf8Error', None, [utf8_valid_prefix(I, items_of(e.fields[0]))[1]])
 
 
 @model('from_utf8_unchecked', 'str::from_utf8_unchecked', 'String::from_utf8_unchecked')
